@@ -61,6 +61,18 @@ Theorem C19_transform_preserves_Z : forall (K : fld) dflt tbl, Forall (fun e => 
   Forall (fun f => peval (snd f) x <> 0) ts -> Zwf nt x -> Zev nt x = Zev n0 x.
 Proof. exact transform_preserves_Z. Qed.
 
+(* chains of transforms (network -> immittance -> network -> immittance -> ...), of any length and through any
+   forms: every link that returns a network preserves the impedance, hence so does the whole chain *)
+Inductive tchain (K : fld) (dflt : string) (tbl : list (string * method)) (x : K) : net K -> net K -> Prop :=
+| tc_nil : forall n, tchain K dflt tbl x n n
+| tc_step : forall n0 form ts n1 n2, transform_model dflt tbl n0 form ts = Ok (Some n1) ->
+    Zwf n0 x -> Zwf n1 x -> Forall (fun f => peval (snd f) x <> 0) ts ->
+    tchain K dflt tbl x n1 n2 -> tchain K dflt tbl x n0 n2.
+Theorem C19_transform_chain_preserves_Z : forall (K : fld) dflt tbl, Forall (fun e => method_wf (K:=K) (snd e)) tbl ->
+  forall x (n0 n2 : net K), x <> 0 -> tchain K dflt tbl x n0 n2 -> Zev n2 x = Zev n0 x.
+Proof. intros K dflt tbl Ht x n0 n2 Hx H. induction H as [n|n0 form ts n1 n2 H1 W0 W1 Hts _ IH]; [reflexivity|].
+  rewrite IH. exact (transform_preserves_Z K dflt tbl Ht n0 form ts n1 x H1 Hx W0 Hts W1). Qed.
+
 (* the impedance expression of a network tree *)
 Theorem C19_Zrat_eval : forall (K : fld) (n : net K) x, Zwf n x ->
   peval (snd (Zrat n)) x <> 0 /\ Zev n x = rat_eval (Zrat n) x.
@@ -107,5 +119,6 @@ Print Assumptions C19_cauer_realises.
 Print Assumptions C19_foster_realises.
 Print Assumptions C19_network_realises.
 Print Assumptions C19_transform_preserves_Z.
+Print Assumptions C19_transform_chain_preserves_Z.
 Print Assumptions C19_Zrat_eval.
 Print Assumptions C19_Zwfb_sound.
